@@ -82,13 +82,15 @@ def plan(tier, seed, build, scale):
     per = 4
     for a in range(0, len(depths), per):
         units.append({"mode": "chain", "depths": depths[a : a + per], "variants": 24 if tier == "quick" else 60, "cases": [a, a + 1]})
-    nf = int((3000 if tier == "quick" else 50000) * scale)
-    for a in range(0, nf, max(1, nf // 4)):
-        units.append({"mode": "filter", "cases": [a, min(nf, a + max(1, nf // 4))]})
+    nf = int((3000 if tier == "quick" else 400000) * scale)
+    nfu = 4 if tier == "quick" else 16
+    for a in range(0, nf, max(1, nf // nfu)):
+        units.append({"mode": "filter", "cases": [a, min(nf, a + max(1, nf // nfu))]})
     units.append({"mode": "format_error", "cases": [0, 1]})
-    np_ = int((400 if tier == "quick" else 6000) * scale)
-    for a in range(0, np_, max(1, np_ // 6)):
-        units.append({"mode": "objects", "cases": [a, min(np_, a + max(1, np_ // 6))]})
+    np_ = int((400 if tier == "quick" else 30000) * scale)
+    npu = 6 if tier == "quick" else 16
+    for a in range(0, np_, max(1, np_ // npu)):
+        units.append({"mode": "objects", "cases": [a, min(np_, a + max(1, np_ // npu))]})
     units.append({"mode": "objects_fixed", "cases": [0, 1]})
     return units
 
